@@ -52,6 +52,11 @@ def generate(tier, rng):
         src2 = gen.join(before + snippet + after)
         cases.append(Case(gen.join(before), pedantic='-p', stdin=b'typed line\n', meta=dict(gen='prefix', pair=10000 + k, sample=False)))
         cases.append(Case(src2, pedantic=rng.choice(['-p', '--pedantic']), stdin=b'typed line\n', meta=dict(gen='inserted-' + stage, construct=name, pair=10000 + k, sample=k < 1)))
+    # cross-feature pedantic-clean programs (every statement kind the generators know, all names declared)
+    for k in range(30 if tier == 'quick' else 400):
+        src = gen.rich_program(rng, pedantic_clean=True)
+        for opt in ['', '-p', '--pedantic']:
+            cases.append(Case(src, pedantic=opt, stdin=b'typed line\n', limits=dict(steps=30000), meta=dict(gen='clean' + (opt or '-plain'), pair=20000 + k, sample=False)))
     for p in C01.corpus_programs():
         for opt in ['', '-p']:
             cases.append(Case(p, pedantic=opt, stdin=b'5\n7\nabc\n', meta=dict(gen='corpus' + (opt or '-plain'), pair='c' + str(hash(p)), sample=False)))
